@@ -77,7 +77,7 @@ func c06Commit(o *fw.Obs, rng *rand.Rand) {
 		if rng.Intn(4) == 0 {
 			sec = []int64{0, 1, 999999999, 1000000000, 9999999998}[rng.Intn(5)]
 		}
-		offs := []int{-12 * 3600, -9*3600 - 1800, -3600, 0, 3600, 5*3600 + 1800, 5*3600 + 2700, 12*3600 + 2700, 14 * 3600}
+		offs := []int{-12 * 3600, -9*3600 - 1800, -5 * 3600, -3600, 0, 3600, 2 * 3600, 5*3600 + 1800, 5*3600 + 2700, 12*3600 + 2700, 14 * 3600}
 		c.Time = time.Unix(sec, 0).In(time.FixedZone("", offs[rng.Intn(len(offs))]))
 	}
 	over := len(c.AuthorName) > 65535 || len(c.AuthorEmail) > 65535 || len(c.Message) > 65535
@@ -529,7 +529,10 @@ func c06Run(c *fw.Case, env *fw.Env) *fw.Obs {
 
 func init() {
 	fw.Register(&fw.Property{
-		ID:          "C06",
+		ID: "C06",
+		// the workers run in a zone with daylight saving time whose standard offset (+01:00) is among the generated ones: what
+		// is decoded must not depend on where it is decoded
+		Env:         []string{"TZ=CET"},
 		Level:       "exploration",
 		Rule:        "generated commits (text fields of 0/1/65534/65535/65536/70000 B with embedded field labels and non-UTF8, 0..6 parents, instants 1970..2286 x zones -12:00..+14:00 incl. :30/:45, zero time), blocks (also passed to ValidateBlockBytes, which must accept what WriteBlockTo writes), tables (0..40 columns, key subsets, row counts at block edges), blocks (1..255 rows incl. rows over 64 KiB) with their block indices, profiles produced by the profiler, and the packfile length header (every length in a range exhaustively, all 2^k-1/2^k/2^k+1 for k<=63, sampled 32/64-bit values x 3 types): decode(encode(v)) = v, encode(decode(bytes)) = bytes, store key = prefix + meow(canonical bytes), identical content stored once, oversize text rejected with an error; distinct_nontrivial = distinct object shapes",
 		Assumptions: []string{"instants outside [1970, 2286) are excluded (the 10-digit seconds field cannot hold them)", "object length 0 does not occur", "profiles are those the profiler can produce"},
